@@ -36,6 +36,7 @@ RF = "fast_check::range_finder::PublicRangeFinder::"
 
 
 def run(F, R, tier):
+    _round6(F, R)
     fd = F.body(RF + "find")
     tr = [n for n in fd["_nodes"] if callee_matches(n, [RF + "add_pending_trace"])]
     if R.ob("C11-a", "entrypoints are traced", len(tr) == 1, "shape changed", fd["file"]):
@@ -210,3 +211,32 @@ def run(F, R, tier):
                 R.ob("C11-f", "%s of %s is filtered by public range on every path" % (field_of(n["recv"]) or expr_text(n["recv"]), b["path"].split("::")[-1]), not bad,
                      "a path through %s returns without `%s.retain(|x| public_ranges.contains(..))`: entries that are neither exported nor referenced from the public API stay in the emitted module" % (b["path"].split("::")[-1], expr_text(n["recv"])), where(n))
     R.floor("C11-f public-range filters", n_f, 3)
+
+
+def _round6(F, R):
+    # C11-m: the accessibility of a member built from a source member is the
+    # source's accessibility; the only normalisation is dropping an explicit
+    # `public`.  No other modifier may be singled out (protected must survive).
+    n_sites = 0
+    for b in F.bodies:
+        if b["file"] != "src/fast_check/transform.rs":
+            continue
+        for n in b["_nodes"]:
+            if n.get("k") == "Struct" and (n.get("adt") or "").split("::")[-1] in ("ClassProp", "ClassMethod", "PrivateProp", "AutoAccessor", "TsParamProp"):
+                f = {x["name"]: x["e"] for x in n["fields"]}
+                e = f.get("accessibility")
+                if e is None or not any(y.get("k") == "Field" and y["field"] == "accessibility" for y in walk(e)):
+                    continue
+                n_sites += 1
+                vs = set()
+                for y in walk(e):
+                    if y.get("k") == "Path":
+                        vs |= set(re.findall(r"Accessibility::(\w+)", str(y.get("path", "")) + " " + str(y.get("ctor", ""))))
+                    if y.get("k") == "Match":
+                        for a_ in y["arms"]:
+                            vs |= set(re.findall(r"Accessibility::(\w+)", pat_text(a_["pat"])))
+                    vs |= set(re.findall(r"Accessibility::(\w+)", ctor_of(y) or ""))
+                R.ob("C11-m", "a member copied from the source keeps its accessibility (only an explicit `public` is dropped) [%s:%s]" % (b["path"].split("::")[-1], (n.get("adt") or "").split("::")[-1]), vs <= {"Public"},
+                     "the accessibility of an emitted member is computed by singling out %s: a `protected` (or `private`) member of the source changes its visibility in the emitted declaration" % sorted(vs - {"Public"}),
+                     where(n), key="C11|C11-m|accessibility|%s" % b["path"].split("::")[-1])
+    R.floor("C11-m members whose accessibility is copied from the source", n_sites, 2)
